@@ -28,15 +28,16 @@ import (
 //	cap:    N=[n] P=[dx, dy, dz, c]   icosphere faces with centroid.d > c        open disc (adjusted until it is one)
 //	fan:    N=[k] P=[h]               k triangles around an apex of height h over a regular k-gon: open disc with one interior vertex
 type part struct {
-	Kind   string      `json:"kind"`
-	N      []int       `json:"n,omitempty"`
-	P      []float64   `json:"p,omitempty"`
-	Tree   *gen.Node   `json:"tree,omitempty"`
-	Jitter float64     `json:"jitter,omitempty"` // fraction of the part's shortest edge
-	Seed   uint64      `json:"seed,omitempty"`   // jitter / diagonal / thinning hash seed
-	Drop   float64     `json:"drop,omitempty"`   // probability of removing a face (hash driven)
+	Kind   string       `json:"kind"`
+	N      []int        `json:"n,omitempty"`
+	P      []float64    `json:"p,omitempty"`
+	Tree   *gen.Node    `json:"tree,omitempty"`
+	Jitter float64      `json:"jitter,omitempty"` // fraction of the part's shortest edge
+	XYJit  float64      `json:"xyjit,omitempty"`  // height: interior grid vertices are displaced by up to this much in x and y (<= 0.15 keeps every cell triangle positively oriented)
+	Seed   uint64       `json:"seed,omitempty"`   // jitter / diagonal / thinning hash seed
+	Drop   float64      `json:"drop,omitempty"`   // probability of removing a face (hash driven)
 	Holes  [][4]float64 `json:"holes,omitempty"`  // balls (centre relative to the part's bbox in [0,1]^3, radius relative to its diagonal): faces with centroid inside are removed
-	Place  *gen.Xform3 `json:"place,omitempty"`
+	Place  *gen.Xform3  `json:"place,omitempty"`
 }
 
 type meshSpec struct {
@@ -155,9 +156,13 @@ func boxSurface(nx, ny, nz int) []kit.Tri {
 	return ts
 }
 
-func heightPatch(nx, ny int, amp, a, b, phase float64, seed uint64) []kit.Tri {
+func heightPatch(nx, ny int, amp, a, b, phase, xyjit float64, seed uint64) []kit.Tri {
 	at := func(i, j int) kit.V3 {
 		x, y := float64(i), float64(j)
+		if xyjit > 0 && i > 0 && j > 0 && i < nx && j < ny {
+			x += 2 * xyjit * (hash01(seed, kit.V3{x, y, 1}, 41) - 0.5)
+			y += 2 * xyjit * (hash01(seed, kit.V3{x, y, 2}, 42) - 0.5)
+		}
 		return kit.V3{x, y, amp * (math.Sin(a*x+phase)*math.Cos(b*y-phase) + 0.3*math.Sin(0.7*(x+y)))}
 	}
 	var ts []kit.Tri
@@ -203,7 +208,7 @@ func buildPart(p part, maxFaces int) []kit.Tri {
 	case "csg":
 		ts = mcLimited(p.Tree.Build(), p.P[0], maxFaces)
 	case "height":
-		ts = heightPatch(p.N[0], p.N[1], p.P[0], p.P[1], p.P[2], p.P[3], p.Seed)
+		ts = heightPatch(p.N[0], p.N[1], p.P[0], p.P[1], p.P[2], p.P[3], p.XYJit, p.Seed)
 	case "fan":
 		k := p.N[0]
 		ring := make([]kit.V3, k)
@@ -333,10 +338,12 @@ func libMesh(ts []kit.Tri) (*model3d.Mesh, []*model3d.Triangle) {
 }
 
 // ---------------------------------------------------------------------------
-// generators
+// generators (uniform draws through gen.Int / gen.F: rapid's own numeric generators prefer tiny values)
+
+func pick[T any](t *rapid.T, xs []T, label string) T { return xs[gen.Int(t, 0, len(xs)-1, label)] }
 
 func placeGen(t *rapid.T, label string) *gen.Xform3 {
-	switch rapid.IntRange(0, 3).Draw(t, label+".kind") {
+	switch gen.Int(t, 0, 3, label+".kind") {
 	case 0:
 		return nil
 	case 1:
@@ -353,14 +360,14 @@ func placeGen(t *rapid.T, label string) *gen.Xform3 {
 }
 
 func partGen(t *rapid.T, kinds []string, maxFaces int, label string) part {
-	kind := rapid.SampledFrom(kinds).Draw(t, label+".kind")
+	kind := pick(t, kinds, label+".kind")
 	p := part{Kind: kind, Seed: rapid.Uint64().Draw(t, label+".seed")}
 	isqrt := func(x int) int { return int(math.Sqrt(float64(x))) }
 	switch kind {
 	case "ico":
-		p.N = []int{rapid.IntRange(1, isqrt(maxFaces/20)).Draw(t, label+".n")}
+		p.N = []int{gen.Int(t, 1, isqrt(maxFaces/20), label+".n")}
 	case "torus":
-		a := rapid.IntRange(3, 14).Draw(t, label+".inner")
+		a := gen.Int(t, 3, 14, label+".inner")
 		hi := maxFaces / (2 * a)
 		if hi > 40 {
 			hi = 40
@@ -368,7 +375,7 @@ func partGen(t *rapid.T, kinds []string, maxFaces int, label string) part {
 		if hi < 3 {
 			hi = 3
 		}
-		p.N = []int{a, rapid.IntRange(3, hi).Draw(t, label+".outer")}
+		p.N = []int{a, gen.Int(t, 3, hi, label+".outer")}
 		p.P = []float64{gen.F(t, 0.1, 0.9, label+".r")}
 	case "box":
 		m := isqrt(maxFaces / 12)
@@ -378,9 +385,9 @@ func partGen(t *rapid.T, kinds []string, maxFaces int, label string) part {
 		if m > 8 {
 			m = 8
 		}
-		p.N = []int{rapid.IntRange(1, m).Draw(t, label+".nx"), rapid.IntRange(1, m).Draw(t, label+".ny"), rapid.IntRange(1, m).Draw(t, label+".nz")}
+		p.N = []int{gen.Int(t, 1, m, label+".nx"), gen.Int(t, 1, m, label+".ny"), gen.Int(t, 1, m, label+".nz")}
 	case "tori":
-		k := rapid.IntRange(1, 2).Draw(t, label+".k")
+		k := gen.Int(t, 1, 2, label+".k")
 		r := gen.F(t, 0.3, 0.5, label+".r")
 		// spacing aimed at maxFaces*0.7 triangles: area ~ 4 pi^2 r per torus, about 2.2 triangles per delta^2
 		area := 4 * math.Pi * math.Pi * r * float64(k)
@@ -395,17 +402,26 @@ func partGen(t *rapid.T, kinds []string, maxFaces int, label string) part {
 		if m > 24 {
 			m = 24
 		}
-		p.N = []int{rapid.IntRange(1, m).Draw(t, label+".nx"), rapid.IntRange(1, m).Draw(t, label+".ny")}
+		p.N = []int{gen.Int(t, 1, m, label+".nx"), gen.Int(t, 1, m, label+".ny")}
 		p.P = []float64{gen.F(t, 0, 3, label+".amp"), gen.F(t, 0.2, 1.5, label+".a"), gen.F(t, 0.2, 1.5, label+".b"), gen.F(t, 0, 6, label+".phase")}
+		if gen.Int(t, 0, 5, label+".flat") == 0 {
+			p.P[0] = 0 // flat, symmetric patch
+		}
+		if gen.Int(t, 0, 3, label+".xyjit?") == 0 {
+			p.XYJit = gen.F(t, 0.02, 0.15, label+".xyjit")
+		}
 	case "fan":
-		p.N = []int{rapid.IntRange(3, 12).Draw(t, label+".k")}
+		p.N = []int{pick(t, []int{3, 4, 4, 5, 6, 7, 8, 9, 12}, label+".k")}
 		p.P = []float64{gen.F(t, 0, 2, label+".h")}
+		if gen.Int(t, 0, 3, label+".flat") == 0 {
+			p.P[0] = 0
+		}
 	case "cap":
 		d := gen.Dir3(t, label+".dir").Add(kit.V3{0.0113, -0.0057, 0.0031})
-		p.N = []int{rapid.IntRange(1, isqrt(maxFaces/20)).Draw(t, label+".n")}
+		p.N = []int{gen.Int(t, 1, isqrt(maxFaces/20), label+".n")}
 		p.P = []float64{d[0], d[1], d[2], gen.F(t, -0.6, 0.95, label+".c")}
 	}
-	if rapid.Bool().Draw(t, label+".jit") {
+	if gen.Int(t, 0, 1, label+".jit") == 1 {
 		p.Jitter = gen.F(t, 0.01, 0.3, label+".jitter")
 	}
 	p.Place = placeGen(t, label+".place")
@@ -413,7 +429,7 @@ func partGen(t *rapid.T, kinds []string, maxFaces int, label string) part {
 }
 
 var closedKinds = []string{"ico", "torus", "box", "tori", "tori", "csg"}
-var discKinds = []string{"height", "height", "cap", "cap", "fan"}
+var discKinds = []string{"height", "height", "height", "cap", "cap", "cap", "fan"}
 
 func tierMaxFaces() int {
 	if kit.Tier() == "thorough" {
@@ -425,22 +441,22 @@ func tierMaxFaces() int {
 // maxFacesGen draws the face budget of a case (small most of the time).
 func maxFacesGen(t *rapid.T) int {
 	hi := tierMaxFaces()
-	return rapid.SampledFrom([]int{60, 150, 300, 600, 600, hi}).Filter(func(v int) bool { return v <= hi }).Draw(t, "maxfaces")
+	return pick(t, []int{60, 150, 300, 600, 600, 600, hi}, "maxfaces")
 }
 
 // meshGen draws a mesh: closed surfaces, open discs, optional thinning and several components.
 func meshGen(t *rapid.T, allowThin bool) meshSpec {
 	s := meshSpec{MaxFaces: maxFacesGen(t)}
 	n := 1
-	if rapid.IntRange(0, 3).Draw(t, "multi") == 0 {
-		n = rapid.IntRange(2, 3).Draw(t, "nparts")
+	if gen.Int(t, 0, 3, "multi") == 0 {
+		n = gen.Int(t, 2, 3, "nparts")
 	}
 	for i := 0; i < n; i++ {
 		kinds := append(append([]string{}, closedKinds...), discKinds...)
 		p := partGen(t, kinds, s.MaxFaces/n, "part")
-		if allowThin && rapid.IntRange(0, 3).Draw(t, "thin") == 0 {
-			if rapid.Bool().Draw(t, "thin.holes") {
-				k := rapid.IntRange(1, 3).Draw(t, "thin.nholes")
+		if allowThin && gen.Int(t, 0, 3, "thin") == 0 {
+			if gen.Int(t, 0, 1, "thin.holes") == 1 {
+				k := gen.Int(t, 1, 3, "thin.nholes")
 				for j := 0; j < k; j++ {
 					p.Holes = append(p.Holes, [4]float64{gen.F(t, 0, 1, "hx"), gen.F(t, 0, 1, "hy"), gen.F(t, 0, 1, "hz"), gen.F(t, 0.05, 0.3, "hr")})
 				}
